@@ -77,9 +77,26 @@ type mtEnv struct {
 	last    chain.M
 }
 
-func newMtEnv(fl *drv.Flags) *mtEnv {
+// usersIn: the largest N with an account name uN in the behaviour.
+func usersIn(beh []chain.M, fields ...string) int {
+	max := 0
+	for _, ev := range beh {
+		for _, f := range fields {
+			var n int
+			if _, err := fmt.Sscanf(chain.Str(ev, f), "u%d", &n); err == nil && n > max && n < 50 {
+				max = n
+			}
+		}
+	}
+	return max
+}
+
+func newMtEnv(fl *drv.Flags, minUsers int) *mtEnv {
 	e := &mtEnv{names: map[string]string{}, abs: map[string]string{}, realID: map[string]string{}}
 	n := int(fl.CfgInt("users", 3))
+	if minUsers > n {
+		n = minUsers
+	}
 	accts := map[string]string{}
 	for i := 1; i <= n; i++ {
 		u := fmt.Sprintf("u%d", i)
@@ -365,7 +382,7 @@ func mtRun(fl *drv.Flags, beh []chain.M, w *chain.TraceWriter) {
 	for _, ev := range beh {
 		hasEnd = hasEnd || chain.Str(ev, "name") == "EndBlock"
 	}
-	e := newMtEnv(fl)
+	e := newMtEnv(fl, usersIn(beh, "who", "to"))
 	e.start(w)
 	per := int(fl.CfgInt("perblock", 3))
 	var pending []chain.M
@@ -435,7 +452,7 @@ func mtDriver(mode string, fl *drv.Flags) error {
 // supply), balance, balance-1, balance+1 for transfers and burns; owners and
 // strangers; transfer to self; handover then mint by old and new owner.
 func mtRandom(fl *drv.Flags, rng *rand.Rand, w *chain.TraceWriter) {
-	e := newMtEnv(fl)
+	e := newMtEnv(fl, 0)
 	e.start(w)
 	pick := func(l []string) string { return l[rng.Intn(len(l))] }
 	bigs := []int64{hModel, hModel - 1, hModel + 1, maxUM, maxUM - 1, maxUM - 5}
